@@ -6,7 +6,7 @@ HOST = dict()                      # default cache sizes of the pinned build
 def C(**kw): return Config(**kw)
 
 PROPS = {}
-HOOK_COMMITS = []
+HOOK_COMMITS = ['ffbf043', 'f180a38', 'fef748c']
 
 PROPS["C19"] = dict(
     level="exploration",
@@ -69,4 +69,40 @@ PROPS["C03"] = dict(
     level_note="Bounded as C02. The recursion is entered only in the min-cache build (8192-word cutoff); the host configuration needs > 2^19 words and is covered through its base case only.",
     technique="bounded-exhaustive enumeration (all small matrices, lifted and block rank profiles) on the real code with an independent reconstruction oracle",
     assumptions=["reference elimination and permutation conventions in harness (validated in DESIGN appendix A)", "clang 14 ASan+UBSan builds: host, min-cache with/without SSE2"],
+)
+
+def _c06_runs(tier):
+    rs = [Run(C(), "harness/p_c06.c", ["--mode=tiny", "--setbits=24"], group="tiny"),
+          Run(C(), "harness/p_c06.c", ["--mode=lift"], group="lift"),
+          Run(C(), "harness/p_c06.c", ["--mode=struct"], group="struct"),
+          Run(C(sse2=0, **MIN), "harness/p_c06.c", ["--mode=struct"], group="struct"),
+          Run(C(**MIN), "harness/p_c06.c", ["--mode=rec"], group="rec")]
+    if tier == "thorough":
+        rs.append(Run(C(sse2=0, **MIN), "harness/p_c06.c", ["--mode=lift"], group="lift"))
+    return rs
+
+PROPS["C06"] = dict(
+    level="exploration", runs=_c06_runs,
+    rule="variants {mzd_solve_left(check=1), mzd_pluq + mzd_pluq_solve_left(check=1), mzd_solve_left(check=0) on consistent systems} x ALL systems (A,B) with A of <= 9 (12) entries and B (max(m,n) x w) of <= 8 (10) entries - every shape m<n, m=n, m>n, every rank, every consistent and inconsistent right-hand side incl. inconsistency only in a padding row - plus lifted/echelon/low-rank/boundary/recursive-PLE systems B = A*X0 with every single bit flip of B in {row 0, middle row, last row of A, first/second/last padding row} x {first,last column}; non-trivial = A or B non-zero; distinct = distinct (A, B, variant, cutoff)",
+    level_text="Bounded-exhaustive differential exploration: all small linear systems (complete enumeration of A and B) and structured larger ones are solved by the real routines; the verdict is compared with a reference rank test on [A;0 | B] and every returned solution is multiplied back.",
+    level_note="Bounded: complete enumeration only for systems with <= 9+8 (12+10) entries; larger systems come from the structured families with single-bit perturbations of B.",
+    technique="bounded-exhaustive enumeration of all small systems on the real code against a reference solvability test",
+    assumptions=["reference elimination in harness/vx.c", "clang 14 ASan+UBSan builds: host, min-cache"],
+)
+
+def _c07_runs(tier):
+    return [Run(C(), "harness/p_c07.c", ["--mode=tiny", "--setbits=24"], group="tiny"),
+            Run(C(), "harness/p_c07.c", ["--mode=lift"], group="lift"),
+            Run(C(sse2=0, **MIN), "harness/p_c07.c", ["--mode=lift"] + ([] if tier == "thorough" else ["--lift-b=65"]), group="lift"),
+            Run(C(), "harness/p_c07.c", ["--mode=struct"], group="struct"),
+            Run(C(sse2=0, **MIN), "harness/p_c07.c", ["--mode=struct"], group="struct"),
+            Run(C(**MIN), "harness/p_c07.c", ["--mode=rec"], group="rec")]
+
+PROPS["C07"] = dict(
+    level="exploration", runs=_c07_runs,
+    rule="mzd_kernel_left_pluq x cutoffs x inputs: TINY(16/20) = ALL matrices with that many entries, LIFT = all lifted rank profiles (<= 9/12 core entries), ECH (all subsets of 10 boundary pivot columns), RK, BND, and in the min-cache build REC = shapes above the PLE cutoff with every (r1,r2,placement) class incl. pivot gaps in the right half; non-trivial = 0 < rank < ncols (a non-trivial kernel exists); distinct = distinct (input digest, cutoff)",
+    level_text="Bounded-exhaustive differential exploration of the kernel routine over complete small-matrix domains and structured rank-profile families, including the block-recursive PLE route; NULL iff full column rank, dimensions, A*K = 0 for the original A and rank(K) = n - r are decided by the reference model.",
+    level_note="Bounded as C02/C03.",
+    technique="bounded-exhaustive enumeration (all small matrices, lifted and block rank profiles) on the real code against a reference null-space test",
+    assumptions=["reference rank / product in harness/vx.c", "clang 14 ASan+UBSan builds: host, min-cache with/without SSE2"],
 )
